@@ -237,6 +237,34 @@ pub fn reassembler_refused_data(events: &[Event], view: &WireView, ci: usize) ->
             if !saw_zero && n[k] >= 3 {
                 return true;
             }
+            // later in a connection that did meet a zero window at some point: refusals that happen
+            // while the window the sender was last told is open (the refused packets were sent
+            // within an advertised, non-zero window)
+            let mut told: Vec<(Us, u32)> = Vec::new();
+            for &pi in conn.dir(!from_init) {
+                let p = &view.pkts[pi];
+                if let (Some(pk), Some((rt, _))) = (&p.pkt, p.recvs.first()) {
+                    if pk.ty != wire::ST_SYN {
+                        told.push((*rt, pk.wnd));
+                    }
+                }
+            }
+            told.sort();
+            let receiver = if k == 0 { conn.acceptor } else { conn.initiator };
+            let mut open_refusals = 0u32;
+            for e in events {
+                if let Ev::Hook(librqbit_utp::verif::VerifEvent::RxData { id, outcome, .. }) = &e.ev {
+                    if *outcome == "unavailable" && id.local == receiver {
+                        let i = told.partition_point(|(rt, _)| *rt <= e.t);
+                        if i > 0 && told[i - 1].1 > 0 {
+                            open_refusals += 1;
+                        }
+                    }
+                }
+            }
+            if open_refusals >= 3 {
+                return true;
+            }
         }
     }
     false
@@ -343,7 +371,7 @@ pub fn recut_after_delivery(view: &WireView, lives: &[VsockLife], src: std::net:
                         // (the earlier version may also reach the receiver after the re-cut was sent - a
                         // straggler - and meet the pieces of the new version there: same mechanism)
                         let _ = r;
-                        if acked && view.probe_expired_at(src, dst, id, wp.t) && unique_sender_at(*t0) && unique_sender_at(wp.t) {
+                        if acked && view.probe_expired_within(src, dst, id, *t0, wp.t) && unique_sender_at(*t0) && unique_sender_at(wp.t) {
                             return Some(wp.t);
                         }
                     }
